@@ -5,7 +5,7 @@ Driver for Model/MesoSession.lean (stateful: one interpreter session):   lake en
   edit <object id> <M> <rho> <gamma> <rho_molar>                 -> ok <object id> | refused
   iso <name> <temperature> <molar|mass> [pressure] [loading mmol/g | mg/g]   -> ok <object id held> | refused
   analyse <iso index> <method> <geometry> <factor> <K|J> <N|L> <lo> <hi> [thick] [ln p]
-                                                                 -> ok [widths] [areas] [volumes] [dist] [cum] <min> <max> | refused
+                                                                 -> ok [widths] [areas] [volumes] [dist] [cum] <min> <max> [width increments] | refused
   tcurve <monolayer> [ps] [ns] [xs]                              -> ok [thickness at xs]      (standard thickness curve)
 -/
 import PgVerif.Gen.CharF
@@ -25,7 +25,7 @@ def showOut (o : Out ℚ) : String :=
   | .done id => s!"ok {id}"
   | .refused => "refused"
   | .result r =>
-    s!"ok {showRatList r.result.widths} {showRatList r.result.areas} {showRatList r.result.volumes} {showRatList r.result.distribution} {showRatList r.cumulative} {r.window.1} {r.window.2}"
+    s!"ok {showRatList r.result.widths} {showRatList r.result.areas} {showRatList r.result.volumes} {showRatList r.result.distribution} {showRatList r.cumulative} {r.window.1} {r.window.2} {showRatList (increments r.fullWidths)}"
 
 def parseOp (ts : List String) : Option (Op ℚ) :=
   match ts with
